@@ -295,6 +295,23 @@ Theorem bst_errors_constructed : forall text fn desc pos c l,
 Proof. exact Proofs.ErrorsReaders.BstR.error_constructed. Qed.
 Print Assumptions bst_errors_constructed.
 
+(* scanners WITHOUT line numbers (NameFormatParser: lineno = None): the errors they raise are
+   constructed errors (constructors C_syntax_nl / C_token_nl, covered by format_error_total_by_class);
+   whatever Scanner.required raises on such a scanner is one of them *)
+Theorem lineless_required_constructed : forall text lit fn id e,
+  lineless_required text lit fn id = inr e -> constructed e.
+Proof. exact Proofs.Errors.lineless_required_constructed. Qed.
+Print Assumptions lineless_required_constructed.
+
+(* ... and a line-less TokenRequired renders as exactly one line, without source context and without
+   ' in line n': [file name: ] prefix 'syntax error: ' description ' expected' *)
+Theorem lineless_token_required_renders : forall id desc text fn pos p,
+  format_error (new_token_required_nl id desc text fn pos) p
+  = Ok (fname_prefix (new_token_required_nl id desc text fn pos)
+          (p ++ k_syntax_error ++ k_colon_sp ++ desc ++ k_expected)).
+Proof. exact Proofs.Errors.lineless_token_required_renders. Qed.
+Print Assumptions lineless_token_required_renders.
+
 (* ---- non-vacuity ---- *)
 Definition ex_aux : err :=
   mkErr 1 (s2l "illegal, another \bibstyle command") (FnStr (s2l "x.aux")) (SAux (Some 3%Z)) (CAux (Some (s2l "\bibstyle{b}"))).
@@ -388,3 +405,8 @@ Example bst_reader_example :
   BstParser.parse_text (s2l "ENTRY {a}
   {b} ?") = PyErr BstParser.cls_token_required 2.
 Proof. vm_compute. reflexivity. Qed.
+
+Example lineless_example :
+  exists e, lineless_required (s2l "_}{ll}") (s2l "}") PNone 1 = inr e
+  /\ format_error e (s2l "ERROR: ") = Ok (s2l "ERROR: syntax error: '}' expected").
+Proof. eexists. split; vm_compute; reflexivity. Qed.
